@@ -54,6 +54,7 @@ PROGRAMS = [
     "async with u: pass\nasync with a as b, c: pass",
     "while c: a; b\nfor i in j: k",
     "if x: a = 1\nelif y: b = 2\nelse: c = 3",
+    "x = a if(b) else c\ny = not(f) or (g)\nz = ((h))\nw = a if(b)else c",
 ]
 
 for _p in PROGRAMS:
